@@ -35,7 +35,7 @@ class ResolveSurface(core.Surface):
         return resgen.impl_resolve(x["expr"], x["params"], x["mappings"], x["conds"])
 
     def model(self, rn, x):
-        return core.model_res(rn.call(101, [x["expr"], x["params"], x["mappings"], x["conds"]]))
+        return core.model_res(rn.call(101, [resgen.to_wire(x["expr"]), resgen.to_wire(x["params"]), resgen.to_wire(x["mappings"]), x["conds"]]))
 
     def agree(self, x, i, m):
         if i[0] == "EXC" and m[0] == "EXC":
